@@ -82,11 +82,12 @@ def gen_model(rng, fs, potable, nmax=4, allow_undeclared=True, kmax=4, nr_max=12
             ex = {}
             known = e in BUILTIN
             if not known or rng.random() < 0.3:
-                ex["atomic_number"] = rng.randint(1, 110)
+                # zero is a legitimate override value (a placeholder element, a massless shell): it must not be mistaken for "not given" (seed C03_5)
+                ex["atomic_number"] = 0 if rng.random() < 0.2 else rng.randint(1, 110)
             if not known or rng.random() < 0.3:
-                ex["atomic_mass"] = Fr(rng.randint(8, 2000), 8)
+                ex["atomic_mass"] = Fr(0) if rng.random() < 0.2 else Fr(rng.randint(8, 2000), 8)
             if rng.random() < 0.4:
-                ex["lattice_constant"] = Fr(rng.randint(16, 80), 16)
+                ex["lattice_constant"] = Fr(0) if rng.random() < 0.2 else Fr(rng.randint(16, 80), 16)
             if rng.random() < 0.4:
                 ex["lattice_type"] = rng.choice(LATTICES)
             if ex:
